@@ -131,13 +131,39 @@ def summarise(P, name, ctx):
         ctx.stats['paths'] += 1
         guards, effects = [], []
         result = None
+        flags = {}        # local boolean flags: id -> ('const', bool) | ('expr', condition it was computed from)
+        infeasible = False
         for ev in util.path_events(path):
             t = ev['t']
             if t == 'cond':
+                raw = ir.top_nocast(ir.nocast(ev['expr']))
+                neg = False
+                while raw[0] == 'un' and raw[1] == '!':
+                    raw, neg = ir.top_nocast(raw[2]), not neg
+                if raw[0] == 'local' and len(raw) > 2 and raw[2] in flags:
+                    kind, val = flags[raw[2]]
+                    outcome = bool(ev['val']) != neg
+                    if kind == 'const':
+                        if val != outcome:
+                            infeasible = True
+                            break
+                    else:
+                        guards.append((_atom(P, val, rec, f), outcome))
+                    continue
                 guards.append((_atom(P, ev['expr'], rec, f), bool(ev['val'])))
             elif t == 'write':
                 lhs = ir.top_nocast(ev['lhs'])
                 if lhs[0] == 'local':
+                    if ev['op'] == '=' and ev['rhs'] is not None and len(lhs) > 2:
+                        cv = util.const_int(ev['rhs'], P.enums)
+                        if cv is not None:
+                            flags[lhs[2]] = ('const', bool(cv))
+                        else:
+                            try:
+                                _atom(P, ev['rhs'], rec, f)
+                                flags[lhs[2]] = ('expr', ev['rhs'])
+                            except Undecided:
+                                flags.pop(lhs[2], None)
                     continue
                 if _is_rec_field(lhs, rec, 'depth'):
                     if ev['op'] == '++':
@@ -218,6 +244,8 @@ def summarise(P, name, ctx):
                     result = ('term', why)
             elif t == 'exit' and result is None:
                 result = ('ret', 'void')
+        if infeasible:
+            continue
         out.append({'guards': guards, 'effects': effects, 'result': result,
                     'desc': util.describe_path(g, path), 'end_line': path[-1][0]['line'] if path[-1][0]['kind'] != 'exit' else (path[-2][0]['line'] if len(path) > 1 else None)})
     return out
